@@ -35,3 +35,15 @@ open(os.path.join(d, 'known_functions.txt'), 'w').write('\n'.join(funcs) + '\n')
 open(os.path.join(d, 'known_attrs.txt'), 'w').write('\n'.join(attrs) + '\n')
 open(os.path.join(d, 'known_consts.txt'), 'w').write('\n'.join(sorted(set(consts))) + '\n')
 print(len(funcs), 'functions,', len(attrs), 'attributes,', len(set(consts)), 'module/class-level names')
+
+# fingerprints of the documented swallows (rules/c03.py SWALLOWS) in this tree and its fully expanded view
+import json
+from s3tlint import engine, rules
+from s3tlint.ir import Program
+rules.load_all()
+from s3tlint.rules import c03
+prog = Program(src)
+ctx = engine.Ctx(prog, 'C03', 'quick')
+fps = sorted([o, t, fp, r] for (o, t, fp), r in c03.swallow_prints(ctx).items())
+json.dump(fps, open(os.path.join(d, 'known_swallows.json'), 'w'), indent=1)
+print(len(fps), 'swallow fingerprints')
